@@ -180,6 +180,9 @@ func (s *Spec) argv(v *Variant, csvPath string, paths []string) []string {
 		if !v.ImplSnap {
 			a = append(a, "--snapshot")
 		}
+		if s.All {
+			a = append(a, []string{"-a", "--all"}[len(s.Lines)%2])
+		}
 		if csvPath != "" {
 			a = append(a, "-o", csvPath)
 		}
